@@ -41,6 +41,12 @@ def prepare(pid, progs):
     return extra, info
 
 
+def _run_ext(args):
+    kind, ident_, patch, pid = args
+    import seeded as SD
+    return kind, ident_, SD.run_patch(patch, props=[pid])
+
+
 def _baseline_hash():
     try:
         return open(os.path.join(TOOLS, "baseline_hash")).read().strip()
@@ -132,7 +138,34 @@ def finish(pid, ctx, progs, extra, info, t0):
                 ok = all(w in fired for w in want)
                 rows.append({"id": m["id"], "kind": "mutant", "status": "caught" if ok else "MISSED", "fired": fired, "expected": want, "what": m["what"]})
             n_bad += not ok
-        info["self_check"] = {"patches": len(mine), "not_as_expected": n_bad, "asserted": same_tree, "wall_s": round(time.time() - t1, 1),
+        # independently seeded breaking changes of this property (seeded/<id>/) and behaviour-preserving refactors (neutral/<id>/)
+        import seeded as SD
+        ext = []
+        sd = os.path.join(F.VERIF, "seeded")
+        for sid in sorted(os.listdir(sd)) if os.path.isdir(sd) else []:
+            mp = os.path.join(sd, sid, "meta.json")
+            if os.path.exists(mp) and json.load(open(mp)).get("property") == pid:
+                ext.append(("seeded", sid, os.path.join(sd, sid, "patch.diff")))
+        nd = os.path.join(F.VERIF, "neutral")
+        for nid in sorted(os.listdir(nd)) if os.path.isdir(nd) else []:
+            ext.append(("neutral", nid, os.path.join(nd, nid, "patch.diff")))
+        with Pool(jobs) as pool:
+            eres = pool.map(_run_ext, [(k, i, p_, pid) for (k, i, p_) in ext])
+        for (k, i, r) in eres:
+            if "error" in r:
+                rows.append({"id": i, "kind": k, "status": "skipped (does not apply / compile on this tree)"})
+                n_bad += same_tree
+                continue
+            fired = sorted({v["rule"] for v in r["fired"].get(pid, [])})
+            if k == "neutral":
+                ok = not fired
+                rows.append({"id": i, "kind": "neutral refactor (independent agent)", "status": "silent" if ok else "FALSE-ALARM", "fired": fired})
+            else:
+                st = json.load(open(os.path.join(sd, i, "meta.json"))).get("status", "caught")
+                ok = bool(fired) or st != "caught"
+                rows.append({"id": i, "kind": "seeded breaking change (independent agent)", "status": "caught" if fired else ("not caught by this property's rules (%s)" % st), "fired": fired})
+            n_bad += not ok
+        info["self_check"] = {"patches": len(mine) + len(ext), "not_as_expected": n_bad, "asserted": same_tree, "wall_s": round(time.time() - t1, 1),
                               "rows": rows}
         if n_bad and same_tree:
             out.append("CHECKER-BROKEN: %d seeded mutant(s)/neutral patch(es) not handled as expected for %s: %s" % (
